@@ -845,6 +845,8 @@ impl Rasn {
                 details: "Named bits should be resolved by this point!".into(),
                 kind: crate::prelude::GeneratorErrorType::Unidentified,
             }),
+            // an empty array literal gives the compiler no element type to infer
+            ASN1Value::BitString(b) if b.is_empty() => Ok(quote!(BitString::new())),
             ASN1Value::BitString(b) => {
                 let bits = b.iter().map(|bit| bit.to_token_stream());
                 Ok(quote!([#(#bits),*].into_iter().collect()))
